@@ -866,7 +866,7 @@ func (c *coreGen) genFraud(s *coreSnap, ri int, members []int) string {
 		rev += uint64(1 + g.Intn(2))
 		c.r.Hit("fraud-wrong-revision")
 	}
-	if len(members) > 0 && g.Chance(40) {
+	if len(members) > 0 && g.Chance(40+map[string]int{"C06": 25}[c.focus]) {
 		punish = fmt.Sprintf("a%d", members[g.Intn(len(members))])
 		// one draw: 60 % an ordinary actor, 12 % m0 = the distribution module account (a recipient the
 		// bank refuses), 28 % nobody
